@@ -208,8 +208,8 @@ def seq_oracle(ops, impl):
             m[k] = exp
         elif w[0] == 'all':
             ids = res.strip('[]').split()
-            if sorted(ids) != sorted(str(v) for v in m.values()):
-                bad.append('for_all visited %s but the map holds the items %s' % (res, sorted(m.values())))
+            if sorted(ids) != sorted('%d:%d' % kv for kv in m.items()):
+                bad.append('for_all visited %s but the map holds %s' % (res, sorted(m.items())))
         bad += ['%s: %s' % (o, p) for p in dump_problems(d, True)]
         stored = sorted(dump_items(d))
         if stored != sorted(str(v) for v in m.values()):
@@ -452,26 +452,19 @@ def run_coop_batch(exe, lines, driver_ok, timeout):
             pre, recs = parse_coop_hist(hist.split())
             fd, fall = final.split(' all=')
             probs += dump_problems(fd, True)
-            visited = fall.strip('[]').split()
+            pairs = fall.strip('[]').split()
+            visited = [x.split(':')[1] for x in pairs]
             stored = dump_items(fd)
             if sorted(visited) != sorted(stored):
                 probs.append('quiescent for_all visited %s but the tables hold %s' % (visited, stored))
             if len(set(visited)) != len(visited):
                 probs.append('quiescent for_all visited an item twice: %s' % visited)
-            # final map: item id -> key from the history (the key under which the item was handed over)
-            key_of = {}
-            for kind, k, i in pre:
-                if kind in 'iu': key_of[i] = k
-            for r in recs:
-                if r[2] in 'iu' and r[5] != 'rej': key_of[r[4]] = r[3]
             fmap = {}
-            for x in visited:
-                if x.isdigit() and int(x) in key_of:
-                    if key_of[int(x)] in fmap:
-                        probs.append('two items with key %d are stored: %s' % (key_of[int(x)], visited))
-                    fmap[key_of[int(x)]] = int(x)
-                else:
-                    probs.append('for_all visited the unknown item %s' % x)
+            for x in pairs:
+                k2, i2 = x.split(':')
+                if int(k2) in fmap:
+                    probs.append('two items with key %s are stored: %s' % (k2, pairs))
+                fmap[int(k2)] = int(i2)
             b2, inc, overl = check_history(recs, prefix_state(pre), fmap)
             probs += b2
             out['inconclusive'] += inc
@@ -566,11 +559,6 @@ def corpus_cases():
     return seqs, coops
 
 
-def run_seq(ctx, res, exe_san, cases, corpus_n):
-    results, stats, viols, (rc, err) = pv.run_script_cases(exe_san, cases) if hasattr(pv, 'run_script_cases') else (None, None, None, (0, ''))
-    return results
-
-
 def run(ctx, res, lines=None):
     exe = ctx.path('C32')
     exe_san = ctx.path('C32_san')
@@ -640,7 +628,7 @@ def run(ctx, res, lines=None):
                 body = ops[j + 1:k]
 
                 def failing(sub):
-                    return pv.case_disagrees(exe_san, 'pv_C32', ['seq ' + hdr] and sub, env=env) if False else _seq_disagrees(exe_san, hdr, sub, env)
+                    return _seq_disagrees(exe_san, hdr, sub, env)
                 try:
                     small = pv.ddmin(body[:dd[0]['index'] - j], failing, max_tests=150)
                 except Exception:
